@@ -52,6 +52,9 @@ type usesResolved struct {
 }
 
 type resolver struct {
+	// submodules already merged into a module, by name
+	included map[*Module]map[string]struct{}
+
 	builder        *Builder
 	inProgressUses map[*Grouping]*usesResolved
 	unresolvedUses []*usesUnresolved
@@ -220,6 +223,18 @@ func (r *resolver) copyOverIncludes(main *Module, includes []*Include) error {
 		if i.loader == nil {
 			return errors.New("no module loader defined")
 		}
+		// a submodule is merged once, however many include statements of the module
+		// and of its other submodules (including itself) name it
+		if r.included == nil {
+			r.included = make(map[*Module]map[string]struct{})
+		}
+		if r.included[main] == nil {
+			r.included[main] = make(map[string]struct{})
+		}
+		if _, done := r.included[main][i.subName]; done {
+			continue
+		}
+		r.included[main][i.subName] = struct{}{}
 		var err error
 		var rev string
 		if i.rev != nil {
